@@ -186,6 +186,30 @@ def decide(pid, tier, seed):
             f = [f for f in gi.funcs if f["name"] == x["function"]]
             if f and pat.search(f[0]["text"]):
                 x["specific"] = False
+    # a function whose control-flow skeleton changed and whose master body carries proof script: a clause that
+    # fails there may fail only because the proof hints now sit on another path (a refactoring, not a defect);
+    # such a failure is undecided unless the witness step finds a failing input
+    reshaped = [n for n, v in g["splice"]["functions"].items() if v.get("status") == "transplanted" and v.get("skeleton_changed") and v.get("body_ghost")]
+    if reshaped:
+        for x in fails:
+            if x["function"] in reshaped and x.get("specific"):
+                x["specific"] = False
+                x["reshaped"] = True
+        if any(x.get("reshaped") for x in fails):
+            notes.append("control flow of %s changed and its proof script is tied to the old shape: failed obligations there count as undecided unless a failing input is found" % ", ".join(reshaped))
+    # derive lists the contracts rely on (derived Clone/PartialEq/Eq/Copy/Default taken with their std meaning)
+    for tname, d in sorted(g["splice"].get("derives_changed", {}).items()):
+        lost_tr = sorted(set(d["contracts"]) - set(d["repo"]))
+        if not lost_tr:
+            continue
+        value_types = ("Arena", "Node", "NodeData", "NodeStamp", "NodeId")
+        spec_props = ["C13"] if tname in value_types and set(lost_tr) & {"Clone", "PartialEq", "Eq"} else []
+        weak_props = {"NodeId": ["C05", "C06", "C11"], "NodeStamp": ["C06"], "NodeEdge": ["C09"], "Arena": ["C05"]}.get(tname, []) if set(lost_tr) & {"PartialEq", "Eq"} else []
+        fails.append({"function": "type " + tname, "obligation": "type %s: derives %s (C13.value_semantics_are_the_derived_ones)" % (tname, ", ".join(lost_tr)),
+                      "props": spec_props + weak_props, "specific": bool(spec_props) and pid == "C13", "line": 0,
+                      "message": "the contracts take Clone / PartialEq / Eq / Copy / Default of this type to be the derived ones; /repo no longer derives %s "
+                                 "(a hand-written impl is outside the verified text)" % ", ".join(lost_tr),
+                      "rendered": "contracts: #[derive(%s)]\n/repo:     #[derive(%s)]\n" % (", ".join(d["contracts"]), ", ".join(d["repo"]))})
     if r["summary"] is None:
         raise P.Undecided("verus produced no summary: " + " ".join(r["stderr_other"][-5:]))
     if tools:
